@@ -7,7 +7,7 @@
    last entry wins) if the topic's error class stores them; [last_addr id bs] is the address the last entry
    for broker id gives in the response's broker list. *)
 From Coq Require Import List ZArith Sorted.
-From SV Require Import C15.Model C15.ProofsView C15.ProofsRefresh C15.ProofsAtomic.
+From SV Require Import Gen.GoInt Gen.DecTypes Gen.DecC15 C15.Model C15.ProofsView C15.ProofsRefresh C15.ProofsAtomic C15.ProofsTie.
 Import ListNotations.
 Open Scope Z_scope.
 
@@ -124,3 +124,27 @@ Theorem c15_refresh_out_of_brokers : forall answer c,
     incl (dead c ++ seeds c) (seeds c') /\ dead c' = [].
 Proof. exact refresh_out_of_brokers. Qed.
 Print Assumptions c15_refresh_out_of_brokers.
+
+(* Tie to the regenerated code (go/decgen, golden SV.Gen.DecC15 re-derived from client.go on every run):
+   cachedLeader, the id-collecting loop of setPartitionCache and updateMetadata's `switch topic.Err`. *)
+Theorem c15_tie_cached_leader : forall s t p name,
+  rd_to_go (Model.cached_leader s t p) =
+  DecC15.cached_leader name p
+    (option_map (fun _ => tt) (lookup t (metadata s)))
+    (is_some (cached_meta s t p))
+    (match cached_meta s t p with Some pm => p_err pm | None => 0 end)
+    (match cached_meta s t p with Some pm => lookup (p_leader pm) (brokers s) | None => None end).
+Proof. exact tie_cached_leader. Qed.
+Print Assumptions c15_tie_cached_leader.
+
+Theorem c15_tie_partition_lists : forall m,
+  all_ids m = isort (fst (partition_filter [] 0 (map id_err m))) /\
+  writable_ids m = isort (fst (partition_filter [] 1 (map id_err m))).
+Proof. exact (fun m => conj (tie_all_ids m) (tie_writable_ids m)). Qed.
+Print Assumptions c15_tie_partition_lists.
+
+Theorem c15_tie_topic_error_class : forall retry err e,
+  topic_error_class retry err e =
+  (retry || topic_retry e, (if stores e then err else EK e), if stores e then ExFall else ExContinue)%bool.
+Proof. exact tie_topic_error_class. Qed.
+Print Assumptions c15_tie_topic_error_class.
